@@ -25,3 +25,12 @@ package gittuf
 //@     invariant skippedNotUsed: rangeindex >= 0 && typeIs(entries[rangeindex], *rsl.ReferenceEntry) && has(annotationsMap, as(entries[rangeindex], *rsl.ReferenceEntry).ID.String()) && skippedBy(as(entries[rangeindex], *rsl.ReferenceEntry), annotationsMap[as(entries[rangeindex], *rsl.ReferenceEntry).ID.String()]) ==> (forall ref string :: has(refTips, ref) == atStart(has(refTips, ref)))
 //@   loop 2:
 //@     invariant shape: refTips != nil && fresh(refTips) && annotationsMap != nil && fresh(annotationsMap) && (forall k string :: has(annotationsMap, k) ==> noNil(annotationsMap[k])) && entry != nil
+
+//@ # ---- C20: every hook runs in a sandbox of its own, created for it with its own timeout ----
+//@ func [C20] (*Repository).executeHook -> (code, err)
+//@   requires r != nil && notNil(hook)
+//@   assigns ghost gNil, ghost gVal, ghost fNil, ghost fSet, ghost fStr, ghost meta, ghost ctxSeconds, ghost stackTop, fresh(luasandbox.LuaEnvironment.*), fresh(elems luasandboxopts.EnvironmentOption)
+//@   # the script is run only in an environment whose deadline is this hook's timeout (or the default), freshly
+//@   # created by this call - never one left over from, or shared with, another hook
+//@   assertcall RunScript :: ownSandboxOwnDeadline: fresh(a0) && ctxSeconds != 0 && (ctxSeconds == hookTimeout(hook) || ctxSeconds == luasandbox.LuaTimeOut)
+//@   ensures failureCode: err != nil ==> code == -1
